@@ -255,7 +255,12 @@ pub enum J {
     Obj(Vec<(String, J)>),
 }
 
-pub const NUMS: &[&str] = &["0", "-0", "1", "12", "-3.5", "1e3", "2E-2", "0.0", "123456789", "1.5e+10"];
+pub const NUMS: &[&str] = &[
+    "0", "-0", "1", "12", "-3.5", "1e3", "2E-2", "0.0", "123456789", "1.5e+10",
+    // magnitudes no machine number holds, zero-padded exponents, long digit strings: all of them JSON numbers
+    "1e400", "-1.5E+309", "1e-400", "2e308", "1e-05", "6.02e023", "0e999", "1E+007", "123456789012345678901234567890123456789012345678901234567890",
+    "0.000000000000000000000000000000000000000000000000000000000000001", "-0.0e-0",
+];
 pub const STRS: &[&str] = &[
     "", "x", "hello world", "\\n", "\\u00e9", "\u{e9}", "\\\"q\\\"", "a\\\\b", "\u{1F600}", "/", "x\\\\", "\\\\", "\\\\\\\\", "C:\\\\tmp\\\\",
     "\\ud834\\udd1e", "\\\\\\\"", "a\u{7f}b", "\u{85}", "x\u{9f}", "\u{a0}\u{2028}",
@@ -585,6 +590,30 @@ pub fn parse_j(text: &str) -> J {
         }
     }
     conv(&serde_json::from_str(text).expect("parse_j: fixed text"))
+}
+
+/// an object against a union none of whose object variants fits it WHOLE although every member fits some variant:
+/// members split over two variants, crossed over two variants, with either flag on the object and the union
+pub fn split_unions() -> Vec<(JsonShape, JsonShape)> {
+    let n = JsonShape::Number { optional: false };
+    let st = JsonShape::String { optional: false };
+    let b = JsonShape::Bool { optional: false };
+    let mut out = Vec::new();
+    for (x, y, z) in [(n.clone(), st.clone(), b.clone()), (arr(n.clone(), false), obj(vec![("k", n.clone())], false), st.clone()), (n.clone(), JsonShape::Number { optional: true }, JsonShape::Null)] {
+        for lo in [false, true] {
+            for ro in [false, true] {
+                let left = obj(vec![("a", x.clone()), ("b", y.clone())], lo);
+                out.push((left.clone(), one_of(vec![obj(vec![("a", x.clone())], false), obj(vec![("b", y.clone())], false)], ro)));
+                out.push((left.clone(), one_of(vec![obj(vec![("a", x.clone()), ("b", z.clone())], false), obj(vec![("a", z.clone()), ("b", y.clone())], false)], ro)));
+                out.push((left.clone(), one_of(vec![obj(vec![("a", x.clone())], true), obj(vec![("b", y.clone())], true), JsonShape::Null], ro)));
+                out.push((left.clone(), one_of(vec![obj(vec![("a", x.clone()), ("b", y.clone())], false), obj(vec![("b", y.clone())], false)], ro)));
+                out.push((arr(left.clone(), false), arr(one_of(vec![obj(vec![("a", x.clone())], false), obj(vec![("b", y.clone())], false)], ro), false)));
+                let l3 = obj(vec![("a", x.clone()), ("b", y.clone()), ("c", z.clone())], lo);
+                out.push((l3, one_of(vec![obj(vec![("a", x.clone()), ("b", y.clone())], false), obj(vec![("c", z.clone())], false), obj(vec![("b", y.clone()), ("c", z.clone())], false)], ro)));
+            }
+        }
+    }
+    out
 }
 
 /// unions of RELATED objects: every pair and triple of eight objects whose one member ranges over shapes that cover
